@@ -1177,6 +1177,9 @@ class Sym:
                 return "%s?" % self.name(strip(t[1])[1])        # Ok payload: the value of `X?`
             return "%s.%d" % (self.name(t[1]), t[2])
         if k == "try":
+            ty_ = self.type_of(t[1])
+            if ty_ is not None and ty_.get("k") == "adt" and ty_.get("p", "").endswith("option::Option"):
+                return "(%s as Some).0" % self.name(t[1])      # `opt?` is the payload of `Some`
             return "%s?" % self.name(t[1])
         if k == "downcast":
             return "(%s as %s)" % (self.name(t[1]), t[2])
@@ -1379,6 +1382,10 @@ class Sym:
                                 # `opt.ok_or(e)?` continues exactly when opt is Some
                                 out_.append(("some", self.name(y0_[2][0]), y0_[2][0]))
                                 continue
+                            yty_ = self.type_of(y)
+                            if yty_ is not None and yty_.get("k") == "adt" and yty_.get("p", "").endswith("option::Option"):
+                                out_.append(("some", self.name(y), y))
+                                continue
                             out_.append(("ok", self.name(y), y))
                         else:
                             todo = [subst_params(z, y[2]) for z in summ[1]] + todo
@@ -1387,6 +1394,9 @@ class Sym:
                     x0_ = strip(x)
                     if x0_[0] == "call" and short(x0_[1]) in ("Option::<T>::ok_or", "Option::<T>::ok_or_else") and len(x0_[2]) == 2:
                         return [("some" if cont else "none", self.name(x0_[2][0]), x0_[2][0])]
+                    xty_ = self.type_of(x)
+                    if xty_ is not None and xty_.get("k") == "adt" and xty_.get("p", "").endswith("option::Option"):
+                        return [("some" if cont else "none", self.name(x), x)]      # `opt?`
                     return [("ok" if cont else "err", self.name(x), x)]
             tyname = self.enum_of(ds[1])
             if tyname and (tyname.startswith("std::option::Option") or tyname.startswith("core::option::Option")):
